@@ -569,8 +569,36 @@ func (ex *Ex) typeFacts(asserts []*T) ([]*T, []string) {
 		}
 	}
 	if anyPtr {
-		e := Var("e$t13", SIface)
-		facts = append(facts, Forall([]*T{e}, Implies(App("ptrT", SBool, Dyn(e)), Not(Eq(ValOf(e), NilRef))), []*T{ValOf(e)}))
+		// ground instances only: a universally quantified version would contradict the datatype
+		// (mkI T nil is a value of sort Iface)
+		seen := map[string]bool{}
+		var rec func(t *T, bound map[string]bool)
+		rec = func(t *T, bound map[string]bool) {
+			if t.Kind == kQuant {
+				nb := map[string]bool{}
+				for k := range bound {
+					nb[k] = true
+				}
+				for _, v := range t.QVars {
+					nb[v.Op] = true
+				}
+				rec(t.Args[0], nb)
+				return
+			}
+			if t.S != nil && t.S.Eq(SIface) && (t.Kind == kVar || (t.Kind == kApp && t.Op != "mkI" && t.Op != "ite")) && !containsBound(t, bound) {
+				k := t.String()
+				if !seen[k] {
+					seen[k] = true
+					facts = append(facts, Implies(App("ptrT", SBool, Dyn(t)), Not(Eq(ValOf(t), NilRef))))
+				}
+			}
+			for _, a := range t.Args {
+				rec(a, bound)
+			}
+		}
+		for _, a := range asserts {
+			rec(a, map[string]bool{})
+		}
 	}
 	for _, n := range names {
 		if id, ok := w.extraTypeConsts[n]; ok {
